@@ -165,6 +165,10 @@ pub fn probe_direct<M: MArch, const N: usize>(
         check_index::<M, N>(a, exp, vi, None);
         let bi = a.borrow(da).map(|b| b.index());
         check_index::<M, N>(a, exp, bi, None);
+        let vi = a.view(da).map(|v| v.index());
+        check_index::<M, N>(a, exp, vi, None);
+        let bi = a.borrow(d).map(|b| b.index());
+        check_index::<M, N>(a, exp, bi, None);
         // to_direct on a direct key hands the key back iff it is current ("if the entity exists")
         assert!(a.to_direct(d) == exp.map(|_| d), "Archetype::to_direct(EntityDirect) accepted a stale handle or changed a current one");
         assert!(a.to_direct(da) == exp.map(|_| da), "Archetype::to_direct(EntityDirectAny) accepted a stale handle or changed a current one");
